@@ -341,3 +341,37 @@ def composite_state_programs():
                     core = cat in CS_CORE_INDICES and store in CS_CORE_STORES and body in CS_CORE_BODIES
                     yield core, cat, '%s | %s | %s' % (idx, store, body), progen.Program(
                         full, [(1, 2, 3, [1, 2])], ['composite_state', 'cs:' + cat, 'cs:' + body], 'composite')
+
+
+# ---------------------------------------------------------------- signatures of the converted entity (always run)
+# parameters a, b, c, l in every kind; keyword-only parameters with and without default in every order
+SIGNATURES = [
+    'a, b, c, l', 'a, b, c, *, l', 'a, b, *, c, l', 'a, *, b, c, l', '*, a, b, c, l', 'a, b, c, *, l=0', 'a, b, *, c, l=0', 'a, b, *, c=0, l',
+    'a, b, *, c=0, l=1', 'a, *, b, c=0, l', 'a, *, b=0, c, l=1', 'a, *, b=0, c=1, l', '*, a, b=0, c, l=None', '*, a=0, b, c=1, l',
+    'a, /, b, c, l', 'a, b, /, c, *, l', 'a, /, b=1, *, c, l=2', 'a, b=1, /, c=2, *, l', 'a, *rest, b, c, l', 'a, *rest, b=0, c, l=1, **kw',
+    'a, b, c, l, **kw', 'a, b=1, c=-1, l=None', 'a, b=1, *rest, c, l=(1, 2), **kw', 'a, /, b, *, c, l, **kw',
+    'a: int, b: "str", *, c: float, l: list = None', 'a: int = 0, *rest: int, b, c: "q" = 1, l, **kw: dict', 'a, b, c, *, l: int',
+    'a=lambda: 1, *, b, c=lambda q=1: q, l', 'a, b, c, l=[*range(3)]', 'a, *, b, c, l=..., **k',
+]
+
+# ---------------------------------------------------------------- kinds of entity (function OBJECTS with state on them)
+_ENT_BODY = '    x = a\n    if x > 0:\n        x = x + 1\n    return x\n'
+ENTITY_KINDS = [
+    # attributes set on the function object
+    'def f(a, b, c, l):\n' + _ENT_BODY + 'f.tag = "t"\nf.registry = [1, 2]\n',
+    # functools.wraps wrapper (carries __wrapped__, __dict__ of the wrapped function)
+    'import functools\ndef logged(fn):\n    @functools.wraps(fn)\n    def wrapper(a, b, c, l):\n        if a > 0:\n            a = fn(a, b, c, l)\n        return a\n    return wrapper\n'
+    '@logged\ndef f(a, b, c, l):\n    return a + 1\n',
+    # update_wrapper by hand, no decorator syntax on the converted function
+    'import functools\ndef g(a, b, c, l):\n    """the wrapped one"""\n    return a - 1\ng.mark = 1\ndef f(a, b, c, l):\n' + _ENT_BODY + 'functools.update_wrapper(f, g)\n',
+    # __wrapped__ set by hand
+    'def g(a, b, c, l):\n    return 0\ndef f(a, b, c, l):\n' + _ENT_BODY + 'f.__wrapped__ = g\n',
+    # __wrapped__ chain of two
+    'import functools\ndef g0(a, b, c, l):\n    return 0\ndef g1(a, b, c, l):\n    return 1\nfunctools.update_wrapper(g1, g0)\ndef f(a, b, c, l):\n' + _ENT_BODY + 'functools.update_wrapper(f, g1)\n',
+    # other dunder/state: __doc__, __annotations__, __kwdefaults__, __defaults__
+    'def f(a, b=1, c=2, *, l=3):\n    """doc"""\n' + _ENT_BODY + 'f.__doc__ = "changed"\nf.__annotations__ = {"a": int}\nf.__defaults__ = (5, 6)\nf.__kwdefaults__ = {"l": 7}\n',
+    # a method's function
+    'class K(object):\n    def m(self, a, b, c, l):\n' + _ENT_BODY.replace('    ', '        ').replace('        x = x + 1', '            x = x + 1') + 'f = K.m\nf.note = 1\n',
+    # a function with attributes that shadow names malt sets
+    'def f(a, b, c, l):\n' + _ENT_BODY + 'f.ag_note = 1\nf.__qualname__ = "renamed"\n',
+]
